@@ -25,6 +25,21 @@ type c13Case struct {
 	Host     string   `json:"host"`
 	Scheme   string   `json:"scheme"`
 	Store    string   `json:"store"`
+	// Noise: the request also carries the headers proxies in front of Envoy add, all contradicting the request's own
+	// scheme / host / path attributes (which are what "first requested" means)
+	Noise bool `json:"noise,omitempty"`
+}
+
+// c13Noise builds headers that contradict the attributes of a request with the given scheme.
+func c13Noise(scheme string) map[string]string {
+	other := "https"
+	if scheme == "" || scheme == "https" {
+		other = "http"
+	}
+	return map[string]string{"x-forwarded-proto": other, "x-forwarded-host": "evil.test", "x-forwarded-port": "8443", "x-forwarded-for": "10.0.0.1",
+		"forwarded": "for=10.0.0.1;host=evil.test;proto=" + other, "x-envoy-original-path": "/evil?x=1", "x-original-url": "/evil", "x-rewrite-url": "/evil",
+		"x-forwarded-prefix": "/evil", "x-forwarded-scheme": other, "x-scheme": other, "front-end-https": "on", "x-url-scheme": other, "x-forwarded-ssl": "on",
+		"x-forwarded-uri": "/evil", "referer": "https://evil.test/evil", "origin": "https://evil.test"}
 }
 
 // --- hand-written RFC 3986 splitter and decoder (deliberately not net/url) ---
@@ -129,7 +144,11 @@ func c13Check(c c13Case) (sig, msg string) {
 	spec := world.Spec{Store: c.Store, ClientID: c.ClientID, Scopes: c.Scopes, CallbackURI: c.Callback, AuthzURI: c.Authz}
 	w := world.New(spec)
 	defer w.Close()
-	r1 := w.Do(world.Req{Path: c.Target, Host: c.Host, Scheme: c.Scheme}, world.Plan{})
+	var noise map[string]string
+	if c.Noise {
+		noise = c13Noise(c.Scheme)
+	}
+	r1 := w.Do(world.Req{Path: c.Target, Host: c.Host, Scheme: c.Scheme, ExtraHeaders: noise}, world.Plan{})
 	if r1.Panic != "" || r1.Err != "" {
 		return "error", r1.Panic + r1.Err
 	}
@@ -217,7 +236,7 @@ func c13Check(c c13Case) (sig, msg string) {
 	if err != nil {
 		return "provider-rejects-authorization-request", err.Error()
 	}
-	r2 := w.Do(world.Req{Path: strings.TrimPrefix(cb, "https://app.test"), Cookie: sid}, world.Plan{})
+	r2 := w.Do(world.Req{Path: strings.TrimPrefix(cb, "https://app.test"), Cookie: sid, ExtraHeaders: noise}, world.Plan{})
 	if r2.Panic != "" || r2.Err != "" {
 		return "error", r2.Panic + r2.Err
 	}
@@ -278,6 +297,15 @@ func c13Run(run *ev.Run) {
 						}
 					}
 				}
+			}
+		}
+	}
+	// the same with contradicting proxy headers on every request, for every target in both schemes
+	for _, t := range targets {
+		for _, scheme := range []string{"https", "http"} {
+			for _, au := range authz[:min(2, len(authz))] {
+				cases = append(cases, c13Case{ClientID: clientIDs[0], Scopes: scopes[0], Callback: world.CallbackURI, Authz: au, Target: t.target, Host: t.host, Scheme: scheme, Store: "memory", Noise: true})
+				cases = append(cases, c13Case{ClientID: clientIDs[0], Scopes: scopes[0], Callback: world.CallbackURI, Authz: au, Target: t.target, Host: t.host, Scheme: scheme, Store: "memory"})
 			}
 		}
 	}
